@@ -800,7 +800,10 @@ func init() {
 		}
 		t, bound := r.ghostContent[p]
 		if !bound {
-			unsup("json.Marshal of an object whose content was not bound by the harness")
+			// an object the harness did not bind (a clone, a corrected copy): content unknown, a fresh token
+			r.freshContent++
+			t = r.ctx.Var(fmt.Sprintf("content!%d", r.freshContent), smt.SInt, nil, nil)
+			r.ghostContent[p] = t
 		}
 		return tuple{opq{uf(fr, "MARSHAL", t), -1}, iface{}}
 	}
@@ -861,6 +864,24 @@ func init() {
 			return iface{}, true
 		}
 		return fr.i.opaqueError(name+" failed", iface{}), true
+	}
+	// Clone: the JSON round trip of schema.Object.Clone is replaced by an ideal deep copy when the harness asks
+	// for it (vrt.SetStub("object.Clone", true)); the fidelity of the round trip itself is outside such a claim
+	intrinsics["(*github.com/invopop/gobl/schema.Object).Clone"] = func(fr *frame, args []value) value {
+		if _, ok := fr.i.run.ghostFlags["object.Clone"]; !ok {
+			return notHandled{}
+		}
+		p, _ := args[0].(*value)
+		if p == nil {
+			panic(runtimeError("invalid memory address or nil pointer dereference"))
+		}
+		return tuple{deepCopyValue(p, map[*value]*value{}), iface{}}
+	}
+	// uuid.V7: the clock and the random source are environment: a fresh, well-formed version 7 identifier per call
+	intrinsics["github.com/invopop/gobl/uuid.V7"] = func(fr *frame, args []value) value {
+		r := fr.i.run
+		r.uuidCounter++
+		return fmt.Sprintf("0190c2a6-7c2a-7000-8000-00000fe%05d", r.uuidCounter)
 	}
 	// a document object bound to an abstract content token has content
 	intrinsics["(*github.com/invopop/gobl/schema.Object).IsEmpty"] = func(fr *frame, args []value) value {
